@@ -480,6 +480,11 @@ def run_one(ck, prog):
                         # a remainder: something minus the padded request
                         is_rem = isinstance(xs, tuple) and xs[0] == "bin" and xs[1] in ("Sub", "SubWithOverflow") and fold(xs[3]) is None and \
                             mentions(xs[3], c15.prov, lambda z: (z[0] == "param" and str(z[2]) in ("nb", "size")) or (z[0] == "var" and str(z[2]) == "nb") or (z[0] == "call" and (z[1] or "").endswith(("request2size", "pad_request"))))
+                        if not is_rem:
+                            # the same remainder from `have.checked_sub(need)`
+                            cs = [z for z in walk_deep(xs, c15.prov, limit=30) if z[0] == "call" and (z[1] or "").endswith("::checked_sub") and len(z[2]) == 2]
+                            is_rem = bool(cs) and not mentions(xs, c15.prov, lambda z: z[0] == "bin") and \
+                                mentions(cs[0][2][1], c15.prov, lambda z: (z[0] == "param" and str(z[2]) in ("nb", "size")) or (z[0] == "var" and str(z[2]) == "nb") or (z[0] == "call" and (z[1] or "").endswith(("request2size", "pad_request"))))
                         if not is_rem or (sb, canon(xs)) in seen15:
                             continue
                         seen15.add((sb, canon(xs)))
